@@ -17,6 +17,7 @@ def run(tier, seed):
     scen = sysutil.scenario_cases(seed, tier)
     points = 0
     killed = 0
+    fault_runs = 0
     per_scen = {}
     kinds_at_kill = {}
     try:
@@ -106,9 +107,53 @@ def run(tier, seed):
                     vs.append(Violation(PROP, '%s:partial-file-under-final-name:%s:before-%s' % (PROP, comp, last['call']),
                                         'scenario %s, process killed before output call %d/%d (%s): %s exists under its final name with %d bytes, which is neither the file from before nor a complete output' % (name, k, n, last['call'], fn, len(data)),
                                         {'case': case, 'k': k, 'file': fn, 'head_hex': data[:64].hex()}))
+        # ---- part 2: the same rule under write faults: an output that lost bytes must never show up under its final name
+        import copy
+        fjobs = []
+        for si, (name, case, pre_files) in enumerate(scen):
+            if si not in dry or 'onto' in name:
+                continue
+            c = copy.deepcopy(case)
+            c['stop_on_exc'] = True
+            c['recover'] = [{'op': 'rotate', 'id': 'rec', 'export': False, 'retry': True}, {'op': 'wb'}]
+            d = sysutil.prepare_dir(base, 'fdry%d' % si, c, pre_files)
+            rc, res, sl, err = sysutil.sysrun(exe, c, d, {'mode': 'count'})
+            if rc != 0:
+                continue
+            for e in sl:
+                if e['call'] in ('write', 'writev') and e['req'] > 0 and '_rec' not in os.path.basename(e['path']):
+                    fjobs.append((si, c, e['w']))
+
+        def fault_job(job):
+            si, c, k = job
+            name, case, pre_files = scen[si]
+            d = sysutil.prepare_dir(base, 'fl%d_%d' % (si, k), c, pre_files)
+            rc, res, sl, err = sysutil.sysrun(exe, c, d, {'mode': 'fault', 'k': k, 'err': 'ENOSPC' if k % 2 else 'EIO', 'persist': bool(k % 3 == 0)})
+            return si, k, rc, sysutil.final_files(d, c), [e for e in sl if e.get('injected')], err
+        with cf.ThreadPoolExecutor(max_workers=runner.NCPU) as ex:
+            fres = list(ex.map(fault_job, fjobs))
+        for si, k, rc, files, inj, err in fres:
+            name, case, pre_files = scen[si]
+            comp = case['open']['comp']
+            if rc != 0 or not inj:
+                continue
+            fault_runs += 1
+            hit = os.path.basename(inj[0]['path'])
+            hit = hit[:-5] if hit.endswith('.part') else hit
+            for fn, data in files.items():
+                if fn.endswith('.part') or data in dry[si][0].get(fn, set()):
+                    continue
+                try:
+                    plain = pipeline.decompress(comp, data)
+                    if plain:
+                        cdns_schema.parse(plain)
+                    continue
+                except (pipeline.StreamError, cbor.CborError, cdns_schema.SchemaError) as x:
+                    vs.append(Violation(PROP, '%s:incomplete-file-under-final-name-after-write-fault:%s' % (PROP, comp),
+                                        'scenario %s: write %d to %s failed, yet %s was given its final name although it is not a complete output (%s)' % (name, k, hit, fn, x), {'case': case, 'k': k, 'file': fn}))
     finally:
         runner.cleanup(base)
-    obs = dict(scenarios=len(scen), crash_points_enumerated=points, processes_killed_at_their_point=killed, output_calls_per_scenario=per_scen, call_kind_at_kill=kinds_at_kill)
+    obs = dict(scenarios=len(scen), crash_points_enumerated=points, write_fault_runs_checked_for_partial_final_files=fault_runs, processes_killed_at_their_point=killed, output_calls_per_scenario=per_scen, call_kind_at_kill=kinds_at_kill)
     cov = dict(evaluations=points, distinct_nontrivial=killed,
                rule='for every scenario ({plain,gzip,xz} x {single output, 3 rotations, rotation onto existing names, destruction with/without buffered data}) a dry run counts the output-related calls '
                     '(write, writev, rename on the output files; interposed in the driver executable) and then one process per k in 1..N is killed immediately before its k-th call; non-trivial = the process really died at that call; '
